@@ -14,11 +14,12 @@ IMPLIES = {"avx512vl": ["avx512f"], "avx512f": ["avx2"], "avx2": ["avx"], "avx":
 VARIANT_DETECT = {"SSE2": "sse2", "SSE41": "sse41", "AVX2": "avx2", "AVX512": "avx512"}
 SPEC_FEATURES = {"sse2": {"sse2"}, "sse41": {"sse4.1"}, "avx2": {"avx2"}, "avx512": {"avx512f", "avx512vl"}}
 ROUTE = {
-    "compress_in_place": {"Portable": "portable", "SSE2": "sse2", "SSE41": "sse41", "AVX2": "sse41", "AVX512": "avx512"},
-    "compress_xof": {"Portable": "portable", "SSE2": "sse2", "SSE41": "sse41", "AVX2": "sse41", "AVX512": "avx512"},
-    "hash_many": {"Portable": "portable", "SSE2": "sse2", "SSE41": "sse41", "AVX2": "avx2", "AVX512": "avx512"},
+    # NEON has no single-block kernel: Platform::NEON uses the portable compression (see the comment in platform.rs)
+    "compress_in_place": {"Portable": "portable", "SSE2": "sse2", "SSE41": "sse41", "AVX2": "sse41", "AVX512": "avx512", "NEON": "portable"},
+    "compress_xof": {"Portable": "portable", "SSE2": "sse2", "SSE41": "sse41", "AVX2": "sse41", "AVX512": "avx512", "NEON": "portable"},
+    "hash_many": {"Portable": "portable", "SSE2": "sse2", "SSE41": "sse41", "AVX2": "avx2", "AVX512": "avx512", "NEON": "neon"},
 }
-MOD_NEEDS = {"portable": set(), "sse2": {"sse2"}, "sse41": {"sse4.1"}, "avx2": {"avx2"}, "avx512": {"avx512f", "avx512vl"}}
+MOD_NEEDS = {"portable": set(), "sse2": {"sse2"}, "sse41": {"sse4.1"}, "avx2": {"avx2"}, "avx512": {"avx512f", "avx512vl"}, "neon": set()}
 
 
 def closure_of(feats):
@@ -106,7 +107,11 @@ def rule_D1(ctx, F):
     for v, d in VARIANT_DETECT.items():
         if v in variants:
             ctx.ob(seen.get(v, [None])[-1:] == [d], "detect-returns:%s" % v, det.loc, "detect() returns Platform::%s on the true edge of %s ; required %s_detected()" % (v, seen.get(v), d))
-    ctx.ob(seen.get("Portable") is not None and not seen.get("Portable"), "detect-fallback-portable", det.loc, "detect() falls back to Portable")
+    if "NEON" in variants:
+        # cfg(blake3_neon): NEON is assumed (no run-time detection): detect() returns it unconditionally
+        ctx.ob(seen.get("NEON") is not None and not seen.get("NEON"), "detect-returns:NEON", det.loc, "detect() returns Platform::NEON unconditionally under cfg(blake3_neon)")
+    else:
+        ctx.ob(seen.get("Portable") is not None and not seen.get("Portable"), "detect-fallback-portable", det.loc, "detect() falls back to Portable")
     for v, d in VARIANT_DETECT.items():
         if v not in variants:
             continue
